@@ -217,6 +217,7 @@ pub fn leaf_paint_stub<P: ColorPainter>(painter: &mut P) -> (r: Result<(), Paint
 //@droparm "ResolvedPaint::RadialGradient {" => "ResolvedPaint::RadialGradient { .. } => leaf_paint_stub(painter),"
 //@droparm "ResolvedPaint::SweepGradient {" => "ResolvedPaint::SweepGradient { .. } => leaf_paint_stub(painter),"
 //@dropscan push_ pop_ traverse_with_callbacks decycler fill_glyph paint_cached
+//@desugarfor nth=0 name=verif_it raw
 //@spec
     ensures
         final(painter).skel() == old(painter).skel(),
@@ -228,8 +229,9 @@ pub fn leaf_paint_stub<P: ColorPainter>(painter: &mut P) -> (r: Result<(), Paint
     decreases MAX_TRAVERSAL_DEPTH - recurse_depth
 //@at body-start
     broadcast use axiom_wrap, lemma_pop_push;
-//@at loop "for layer_index in range.clone()"
+//@at loop "let mut verif_it ="
                 invariant painter.root() == old(painter).root(), painter.skel() == old(painter).skel(), recurse_depth < MAX_TRAVERSAL_DEPTH,
+                decreases verif_it.end - verif_it.start
 //@at after "let mut optimizer = CollectFillGlyphPainter::new(painter, glyph_id);"
             let ghost o0 = optimizer;
 //@end
